@@ -244,10 +244,20 @@ func (p *parser) doImport() error {
 	tokensBefore := p.tokens[:p.cursor-1]
 	tokensAfter := p.tokens[p.cursor+1:]
 	var importedTokens []Token
+	// the imports being expanded at this point; importing one of them again would never end
+	parent := p.tokens[p.cursor].imports
 
 	// first check snippets. That is a simple, non-recursive replacement
 	if p.definedSnippets != nil && p.definedSnippets[importPattern] != nil {
-		importedTokens = p.definedSnippets[importPattern]
+		name := "(" + importPattern + ")"
+		if parent.contains(name) {
+			return p.Errf("Import cycle: snippet %s imports itself", importPattern)
+		}
+		chain := &importChain{name: name, parent: parent}
+		for _, tkn := range p.definedSnippets[importPattern] {
+			tkn.imports = chain
+			importedTokens = append(importedTokens, tkn)
+		}
 	} else {
 		// make path relative to the file of the _token_ being processed rather
 		// than current working directory (issue #867) and then use glob to get
@@ -285,7 +295,7 @@ func (p *parser) doImport() error {
 		// collect all the imported tokens
 
 		for _, importFile := range matches {
-			newTokens, err := p.doSingleImport(importFile)
+			newTokens, err := p.doSingleImport(importFile, parent)
 			if err != nil {
 				return err
 			}
@@ -303,7 +313,17 @@ func (p *parser) doImport() error {
 
 // doSingleImport lexes the individual file at importFile and returns
 // its tokens or an error, if any.
-func (p *parser) doSingleImport(importFile string) ([]Token, error) {
+func (p *parser) doSingleImport(importFile string, parent *importChain) ([]Token, error) {
+	// Tack the file path onto these tokens so errors show the imported file's name
+	// (we use full, absolute path to avoid bugs: issue #1892)
+	filename, err := filepath.Abs(importFile)
+	if err != nil {
+		return nil, p.Errf("Failed to get absolute path of file: %s: %v", p.Dispenser.filename, err)
+	}
+	if parent.contains(filename) {
+		return nil, p.Errf("Import cycle: %s imports itself", importFile)
+	}
+
 	file, err := os.Open(importFile)
 	if err != nil {
 		return nil, p.Errf("Could not import %s: %v", importFile, err)
@@ -321,14 +341,10 @@ func (p *parser) doSingleImport(importFile string) ([]Token, error) {
 		return nil, p.Errf("Could not read tokens while importing %s: %v", importFile, err)
 	}
 
-	// Tack the file path onto these tokens so errors show the imported file's name
-	// (we use full, absolute path to avoid bugs: issue #1892)
-	filename, err := filepath.Abs(importFile)
-	if err != nil {
-		return nil, p.Errf("Failed to get absolute path of file: %s: %v", p.Dispenser.filename, err)
-	}
+	chain := &importChain{name: filename, parent: parent}
 	for i := 0; i < len(importedTokens); i++ {
 		importedTokens[i].File = filename
+		importedTokens[i].imports = chain
 	}
 
 	return importedTokens, nil
